@@ -208,12 +208,21 @@ func objHeaderAt(b []byte, p int, eol string) (nr, gen, next int, ok bool) {
 	return nr, gen, q + 4 + len(eol), true
 }
 
+// streamEol: what follows the keyword "stream". With CR line endings pdfcpu writes CRLF there
+// (ISO 32000: the keyword is followed by CRLF or LF, never by CR alone); LF and CRLF files use their EOL.
+func streamEol(eol string) string {
+	if eol == "\r" {
+		return "\r\n"
+	}
+	return eol
+}
+
 // bodyEnd finds, from p, the first position outside strings and at nesting depth 0 where
-// EOL "endobj" EOL or EOL "stream" EOL begins.
+// EOL "endobj" EOL or EOL "stream" streamEol begins.
 func bodyEnd(b []byte, p int, eol string) (int, bool, error) {
 	depth := 0
 	endobj := eol + "endobj" + eol
-	stream := eol + "stream" + eol
+	stream := eol + "stream" + streamEol(eol)
 	for p < len(b) {
 		if depth == 0 {
 			if hasAt(b, p, endobj) {
@@ -295,7 +304,7 @@ func scanSequential(b []byte, start int, eol string, withHeader bool) (*scanResu
 				return nil, fmt.Errorf("obj %d at %d: stream dictionary does not parse", nr, p)
 			}
 			o.dict = d
-			ds := e + len(eol) + 6 + len(eol)
+			ds := e + len(eol) + 6 + len(streamEol(eol))
 			tail := eol + "endstream" + eol + "endobj" + eol
 			var de int
 			if l, ok := d["Length"].(int); ok {
